@@ -27,6 +27,9 @@ func roundtripLeaves() []interface{} {
 		time.Date(1999, 12, 31, 23, 59, 59, 999999999, time.FixedZone("", 5*3600+30*60)),
 		time.Date(2010, 7, 4, 9, 0, 0, 1, ny),
 		time.Date(1960, 1, 1, 0, 0, 0, 0, time.FixedZone("", -3600)),
+		// local mean time zones: offsets with a seconds part, east and west of Greenwich (Amsterdam before 1937, New York before 1883)
+		time.Date(1930, 5, 1, 12, 0, 0, 0, time.FixedZone("AMT", 19*60+32)),
+		time.Date(1880, 5, 1, 12, 0, 0, 5, time.FixedZone("LMT", -(4*3600+56*60+2))),
 	}
 }
 
@@ -147,8 +150,8 @@ func RoundtripSweep(run *ev.Run, backend string, vals []interface{}) {
 			viol("replace", *it, fmt.Sprintf("ReplaceById failed: %v", err))
 		}
 	}
-	for lo := 0; lo < len(items); lo += 250 { // in chunks: the small badger memtable used by the harness limits transaction size
-		c := m.And(m.Leaf("gte", "mark", int64(lo)), m.Leaf("lt", "mark", int64(lo+250)))
+	for lo := 0; lo < len(items); lo += 100 { // in chunks: the small badger memtable used by the harness limits transaction size
+		c := m.And(m.Leaf("gte", "mark", int64(lo)), m.Leaf("lt", "mark", int64(lo+100)))
 		if err := in.DB.Update(drv.Query(&m.Q{Coll: "a", Crit: c}), map[string]interface{}{"upd": "u"}); err != nil {
 			run.Violation("update-error|"+backend, fmt.Sprintf("Update of a chunk of documents failed: %v", err), nil)
 			return
